@@ -188,6 +188,12 @@ def judge(ch, net, obj, rec, kw, tr, opt, stack, seq):
                 out.append(("io-timeout", ev[1], f"{kind} in call {ev[1]} ran under timeout {t!r}, "
                             f"configured timeout is {kw['timeout']!r}"))
                 break
+    # M8: a socket the client has closed is never used again
+    for ev in net.events:
+        if ev[2].endswith("_on_closed"):
+            out.append(("uses-a-closed-socket", ev[1], f"call {ev[1]}: {ev[2][:-10]}() on socket {ev[3]}, which the client had "
+                        f"already closed (a socket abandoned during connection establishment is not to be used further)"))
+            break
     # M5: TLS only through the wrapper
     if net.raw_io:
         call, sid, what = net.raw_io[0]
